@@ -7,12 +7,23 @@
  *   dict                 load a (raw content) dictionary
  *   frame <n>            compress n bytes with compressStream2(e_end) / decode, print header facts
  *   simple <n> <level>   ZSTD_compressCCtx (simple API) and print header facts
+ *   new s|t              CCtx / DCtx living in caller-provided memory (ZSTD_initStaticCCtx / ZSTD_initStaticDCtx); every other op as for c / d
+ *   pset <id> <v>        (kind c/s) set a parameter of the separate ZSTD_CCtx_params object
+ *   papply               (kind c/s) ZSTD_CCtx_setParametersUsingCCtxParams(cctx, that object)
+ *   applied <n>          ZSTD_compress2 of n bytes with the parameters in force; status carries the compression parameters it applied
+ *   derive <entry> <level> <src> <dict>   compression parameters an entry point taking a RAW level derives (independent context), entry =
+ *        0 ZSTD_getCParams  1 ZSTD_getParams  2 ZSTD_compressCCtx  3 ZSTD_compress_usingDict  4 ZSTD_compressBegin  5 ZSTD_compressBegin_usingDict
+ *        6 ZSTD_createCDict  7 ZSTD_createCDict_byReference  8 ZSTD_CCtxParams_init + ZSTD_getCParamsFromCCtxParams  9 ZSTD_initCStream + first flush
+ *        10 ZSTD_CCtx_setParameter(compressionLevel) + ZSTD_compress2
+ *        -> "ok cp=<wlog,clog,hlog,slog,mml,tlen,strat> chk=<ZSTD_checkCParams refuses> [acc=<struct setter verdict>] |"
  * after every op one line:  <status> | v0 v1 v2 ...   (read-back of ALL parameters, '?' when get fails) */
 #include <stdio.h>
 #include <stdlib.h>
 #include <string.h>
+#define ZSTD_DISABLE_DEPRECATE_WARNINGS
 #include "zstd.h"
 #include "zstd_errors.h"
+#include "zstd_compress_internal.h"   /* appliedParams, ZSTD_getCParamsFromCCtxParams, ZSTD_getCParamsFromCDict (observation only) */
 #include "gen_params.h"
 
 static const struct { const char* name; int id; } cps[] = { CP_LIST }, dps[] = { DP_LIST };
@@ -32,6 +43,49 @@ static const char* cls(size_t r) {
 
 static ZSTD_CCtx* cctx; static ZSTD_DCtx* dctx; static ZSTD_CCtx_params* cpar; static char kind = 'c';
 static int dstarted;
+/* contexts in caller-provided memory */
+#define SBUF_C ((size_t)3 << 29)   /* virtual only: large enough for a level-22 streaming session */
+#define SBUF_D ((size_t)8 << 20)
+static void *sbufC, *sbufD; static int cstatic, dstatic;
+static unsigned char bsrc[1 << 20], bdst[(1 << 20) + (1 << 13)], bdict[1 << 18];
+
+static void cpstr(char* out, const char* tag, ZSTD_compressionParameters c) {
+    sprintf(out, "%s%u,%u,%u,%u,%u,%u,%u", tag, c.windowLog, c.chainLog, c.hashLog, c.searchLog, c.minMatch, c.targetLength, (unsigned)c.strategy);
+}
+
+static void derive(const char* line) {
+    static ZSTD_CCtx* dc; int entry = -1; long level = 0; unsigned long long sz = 0, dsz = 0; size_t r = 0, acc = 0; int have = 0;
+    ZSTD_compressionParameters cp; char st[256], cs[128];
+    memset(&cp, 0, sizeof cp);
+    if (sscanf(line, "%*s %d %ld %llu %llu", &entry, &level, &sz, &dsz) != 4) { printf("bad-op |\n"); return; }
+    if (!dc) dc = ZSTD_createCCtx();
+    ZSTD_CCtx_reset(dc, ZSTD_reset_session_and_parameters);
+    if (entry >= 2 && entry != 8 && (sz > sizeof bsrc || dsz > sizeof bdict)) { printf("bad-op |\n"); return; }
+    switch (entry) {
+    case 0: cp = ZSTD_getCParams((int)level, sz, (size_t)dsz); acc = ZSTD_CCtx_setCParams(dc, cp); have = 1; break;
+    case 1: { ZSTD_parameters p = ZSTD_getParams((int)level, sz, (size_t)dsz); cp = p.cParams; acc = ZSTD_CCtx_setParams(dc, p); have = 1;
+              if (p.fParams.contentSizeFlag != 1 || p.fParams.checksumFlag != 0 || p.fParams.noDictIDFlag != 0) { printf("err:fparams |\n"); return; } break; }
+    case 2: r = ZSTD_compressCCtx(dc, bdst, sizeof bdst, bsrc, (size_t)sz, (int)level); break;
+    case 3: r = ZSTD_compress_usingDict(dc, bdst, sizeof bdst, bsrc, (size_t)sz, dsz ? bdict : NULL, (size_t)dsz, (int)level); break;
+    case 4: r = ZSTD_compressBegin(dc, (int)level); break;
+    case 5: r = ZSTD_compressBegin_usingDict(dc, bdict, (size_t)dsz, (int)level); break;
+    case 6: case 7: { ZSTD_CDict* cd = entry == 6 ? ZSTD_createCDict(bdict, (size_t)dsz, (int)level) : ZSTD_createCDict_byReference(bdict, (size_t)dsz, (int)level);
+              if (!cd) { printf("err:null |\n"); return; } cp = ZSTD_getCParamsFromCDict(cd); have = 1; ZSTD_freeCDict(cd); break; }
+    case 8: { ZSTD_CCtx_params* p = ZSTD_createCCtxParams(); ZSTD_CCtxParams_init(p, (int)level);
+              cp = ZSTD_getCParamsFromCCtxParams(p, sz ? sz : ZSTD_CONTENTSIZE_UNKNOWN, (size_t)dsz, ZSTD_cpm_noAttachDict); have = 1; ZSTD_freeCCtxParams(p); break; }
+    case 9: r = ZSTD_initCStream(dc, (int)level);
+            if (!ZSTD_isError(r)) { ZSTD_inBuffer in = { bsrc, 100, 0 }; ZSTD_outBuffer out = { bdst, sizeof bdst, 0 }; r = ZSTD_compressStream2(dc, &out, &in, ZSTD_e_flush); } break;
+    case 10: r = ZSTD_CCtx_setParameter(dc, ZSTD_c_compressionLevel, (int)level);
+            if (!ZSTD_isError(r)) r = ZSTD_compress2(dc, bdst, sizeof bdst, bsrc, (size_t)sz); break;
+    default: printf("bad-op |\n"); return;
+    }
+    if (ZSTD_isError(r)) { printf("%s |\n", cls(r)); return; }
+    if (!have) cp = dc->appliedParams.cParams;
+    cpstr(cs, "cp=", cp);
+    sprintf(st, "ok %s chk=%d", cs, (int)ZSTD_isError(ZSTD_checkCParams(cp)));
+    if (entry <= 1) { strcat(st, " acc="); strcat(st, cls(acc)); }
+    printf("%s |\n", st);
+}
 static unsigned char src[1 << 16], dst[1 << 17], dictbuf[4096];
 
 static void dump(const char* status) {
@@ -53,14 +107,24 @@ int main(void) {
     char line[256]; size_t i;
     for (i = 0; i < sizeof(src); i++) src[i] = (unsigned char)((i * 7) ^ (i >> 5));
     for (i = 0; i < sizeof(dictbuf); i++) dictbuf[i] = (unsigned char)(i * 13);
+    for (i = 0; i < sizeof(bsrc); i++) bsrc[i] = (unsigned char)((i * 11) ^ (i >> 7) ^ ((i >> 13) * 5));
+    for (i = 0; i < sizeof(bdict); i++) bdict[i] = (unsigned char)((i * 3) ^ (i >> 6));
     cctx = ZSTD_createCCtx(); dctx = ZSTD_createDCtx(); cpar = ZSTD_createCCtxParams();
     while (fgets(line, sizeof line, stdin)) {
         char a[32] = {0}; long x = 0, y = 0; int n = sscanf(line, "%31s %ld %ld", a, &x, &y);
         if (n < 1) continue;
         if (!strcmp(a, "new")) {
-            char k = 'c'; sscanf(line, "%*s %c", &k); kind = k;
-            ZSTD_freeCCtx(cctx); ZSTD_freeDCtx(dctx); ZSTD_freeCCtxParams(cpar);
-            cctx = ZSTD_createCCtx(); dctx = ZSTD_createDCtx(); cpar = ZSTD_createCCtxParams();
+            char k = 'c'; sscanf(line, "%*s %c", &k);
+            if (!cstatic) ZSTD_freeCCtx(cctx);
+            if (!dstatic) ZSTD_freeDCtx(dctx);
+            ZSTD_freeCCtxParams(cpar);
+            cstatic = (k == 's'); dstatic = (k == 't'); kind = cstatic ? 'c' : dstatic ? 'd' : k;
+            if (cstatic && !sbufC) sbufC = malloc(SBUF_C);
+            if (dstatic && !sbufD) sbufD = malloc(SBUF_D);
+            cctx = cstatic ? ZSTD_initStaticCCtx(sbufC, SBUF_C) : ZSTD_createCCtx();
+            dctx = dstatic ? ZSTD_initStaticDCtx(sbufD, SBUF_D) : ZSTD_createDCtx();
+            cpar = ZSTD_createCCtxParams();
+            if (!cctx || !dctx) { printf("err:null |\n"); fflush(stdout); return 3; }
             dstarted = 0;
             dump("ok");
         } else if (!strcmp(a, "set")) {
@@ -130,6 +194,17 @@ int main(void) {
              * C16 is about parameters, so drop that session state here */
             ZSTD_CCtx_reset(cctx, ZSTD_reset_session_only);
             if (ZSTD_isError(r)) dump(cls(r)); else { char st[200]; header_facts(dst, r, 0, hf); sprintf(st, "ok %s", hf); dump(st); }
+        } else if (!strcmp(a, "applied") && kind == 'c') {
+            /* ZSTD_compress2 of x bytes with the parameters in force: which compression parameters were applied */
+            size_t r = (size_t)x > sizeof src ? (size_t)-ZSTD_error_srcSize_wrong : ZSTD_compress2(cctx, dst, sizeof dst, src, (size_t)x);
+            if (ZSTD_isError(r)) dump(cls(r)); else { char st[200]; cpstr(st, "ok ap=", cctx->appliedParams.cParams); dump(st); }
+        } else if (!strcmp(a, "pset") && kind == 'c') {
+            /* set a parameter of the separate ZSTD_CCtx_params object (the context itself is dumped: it must not move) */
+            dump(cls(ZSTD_CCtxParams_setParameter(cpar, (ZSTD_cParameter)x, (int)y)));
+        } else if (!strcmp(a, "papply") && kind == 'c') {
+            dump(cls(ZSTD_CCtx_setParametersUsingCCtxParams(cctx, cpar)));
+        } else if (!strcmp(a, "derive")) {
+            derive(line);
         } else if (!strcmp(a, "c2") && kind == 'c') {
             /* ZSTD_compress2 into a destination of x bytes (x = 1: guaranteed too small) */
             size_t r = ZSTD_compress2(cctx, dst, (size_t)x, src, 3000);
